@@ -674,9 +674,9 @@ C06_PROBES = [
     ("sysv-handle-outliving-owner-free-recreates-the-set", "candidate", 4,
      ["0 new-sem 0 s0 2 OPEN", "1 new-sem 1 s0 5 OPEN", "0 free 0", "1 rel 1", "obs"],
      "T1: after the owner's free (IPC_RMID) a release through a remaining handle re-creates the set with THAT handle's initial value, returns TRUE and adds nothing; the name is bound again although no open happened (posix: the handle stays on the unlinked object)"),
-    ("sysv-owner-handle-of-an-earlier-incarnation-does-not-remove-the-name", "candidate", 6,
+    ("sysv-owner-handle-of-an-earlier-incarnation-does-not-remove-the-name", "outside", 6,
      ["0 new-sem 0 s0 1 OPEN", "1 new-sem 1 s0 1 OPEN", "1 own 1", "0 free 0", "2 new-sem 2 s0 3 OPEN", "1 free 1", "obs"],
-     "T3: an owner (take_ownership) whose set was already removed frees its handle after the name was created again: IPC_RMID hits the dead id, the name stays and the next open joins it (posix unlinks by name)"),
+     "T3 (judged outside the statement: the handle owns an EARLIER incarnation of the name, the statement speaks of the handles of the current one): an owner (take_ownership) whose set was already removed frees its handle after the name was created again: IPC_RMID hits the dead id, the name stays and the next open joins it (posix unlinks by name and so removes the new incarnation)"),
 ]
 
 
@@ -688,7 +688,10 @@ def run_c06(chk, cfg, exhaustive_cases):
     R = Runner(chk, fam, "C06")
     rng = chk.rng
     from props import c06 as c06mod
-    directed = [d for d in c06mod.DIRECTED if not any(" 70000 " in o for o in d)] + C06_DIRECTED
+    def above_semvmx(d):      # initial values the System V counter cannot hold (difference `sysv-initial-value-above-semvmx`, outside the statement)
+        import re
+        return any(int(m.group(1)) > SEMVMX for o in d for m in [re.search(r"new-sem \d+ \S+ (\d+) ", o)] if m)
+    directed = [d for d in c06mod.DIRECTED if not above_semvmx(d)] + C06_DIRECTED
     R.run([prefilter(d) for d in directed], batch=1)
     ex = list(exhaustive_cases)
     ex = [drop_waits(c) for c in rng.sample(ex, min(len(ex), 1200 if thorough else 240))]
